@@ -118,8 +118,15 @@ def bisimLoop {τ₁ τ₂ : Type} [Target τ₁] [Target τ₂] (a : DFA τ₁)
           | none, some _ => { ok := false, pairs := seen.length, word := (eoiSym :: w).reverse, why := "end-of-input transition only on the right" }
 
 def bisim {τ₁ τ₂ : Type} [Target τ₁] [Target τ₂] (a : DFA τ₁) (b : DFA τ₂)
-    (accEq : List Acc → List Acc → Bool) (starts : List (Nat × Nat)) : BisimResult :=
-  bisimLoop a b accEq (64 * (a.length + 2) * (b.length + 2) * (a.length + b.length + 4) + 1000)
-    (starts.map fun (x, y) => (Cfg.st x, Cfg.st y, [])) []
+    (accEq : List Acc → List Acc → Bool) (starts : List (Nat × Nat)) : BisimResult × Nat :=
+  -- one exploration per start pair (so a failure names the entry it was found from); `seen` is not
+  -- shared, which only costs time
+  let fuel := 64 * (a.length + 2) * (b.length + 2) * (a.length + b.length + 4) + 1000
+  let rec go : List (Nat × Nat) → Nat → Nat → BisimResult × Nat
+    | [], _, pairs => ({ ok := true, pairs := pairs }, 0)
+    | (x, y) :: rest, idx, pairs =>
+      let r := bisimLoop a b accEq fuel [(Cfg.st x, Cfg.st y, [])] []
+      if r.ok then go rest (idx + 1) (pairs + r.pairs) else (r, idx)
+  go starts 0 0
 
 end Lexgen
